@@ -326,6 +326,21 @@ def textLoop (setext : Bool) : Nat → Bytes → Prog Unit
       wB (s.take r.2)
       textLoop setext fuel (s.drop r.2)
 
+/-- `spanSlice(source, Span{Start, End})` for an explicit span (same panic condition). -/
+def rangeSliceP (src : Bytes) (start stop : Int) : Option Bytes :=
+  if 0 ≤ start && start ≤ stop && stop ≤ (src.length : Int) then some ((src.drop start.toNat).take (stop - start).toNat) else none
+
+/-- `isVerbatimInline(parent)`: the text children of code spans, autolinks and raw HTML tags are written as they are. -/
+def isVerbatimInline (o : Option Tree) : Bool :=
+  match o with
+  | some t => !t.label.isBlock && (t.label.kind == IK.codeSpan || t.label.kind == IK.autolink || t.label.kind == IK.htmlTag)
+  | none => false
+
+/-- `emphasisDelimiterLength`. -/
+def emphasisDelimiterLength (t : Tree) : Int := if t.label.kind == IK.strong then 2 else 1
+
+def hasSuffixEOL (b : Bytes) : Bool := b.getLast? == some LF || b.getLast? == some CR
+
 /-- `visitInline(fw, source, cursor)`. -/
 def visitInline (src : Bytes) (cur : Cursor) : Prog Bool := do
   let child := cur.node
@@ -333,9 +348,12 @@ def visitInline (src : Bytes) (cur : Cursor) : Prog Bool := do
   if k == IK.link then
     wS [0x5B]
     return true
+  else if k == IK.image then
+    wS [0x21, 0x5B]
+    return true
   else if k == IK.text then
     let pk := kindOf cur.block
-    if pk == BK.indentedCode || pk == BK.fencedCode then
+    if pk == BK.indentedCode || pk == BK.fencedCode || isVerbatimInline (cur.parent.bind asInline) then
       let b ← orPanic (spanSliceP src (some child)) .sliceBounds
       wB b
       return false
@@ -344,6 +362,34 @@ def visitInline (src : Bytes) (cur : Cursor) : Prog Bool := do
     return false
   else if k == IK.infoString || k == IK.linkDest || k == IK.linkLabel || k == IK.linkTitle then
     return false
+  else if k == IK.emphasis || k == IK.strong then
+    let n := emphasisDelimiterLength child
+    if child.children.isEmpty || !spanValid child || (spanLen child : Int) < 2 * n then
+      if spanValid child then
+        let b ← orPanic (spanSliceP src (some child)) .sliceBounds
+        wB b
+      return false
+    else
+      let b ← orPanic (rangeSliceP src child.label.start (child.label.start + n)) .sliceBounds
+      wB b
+      return true
+  else if k == IK.codeSpan || k == IK.htmlTag || k == IK.autolink then
+    let descend : Option Tree :=
+      match child.children.head?, child.children.getLast? with
+      | some first, some last =>
+        if spanValid child && spanValid first && spanValid last && child.label.start ≤ first.label.start
+            && last.label.stop ≤ child.label.stop then some first else none
+      | _, _ => none
+    match descend with
+    | some first =>
+      let b ← orPanic (rangeSliceP src child.label.start first.label.start) .sliceBounds
+      wB b
+      return true
+    | none =>
+      if spanValid child then
+        let b ← orPanic (spanSliceP src (some child)) .sliceBounds
+        wB b
+      return false
   else
     if !spanValid child then return false
     let b ← orPanic (spanSliceP src (some child)) .sliceBounds
@@ -353,7 +399,18 @@ def visitInline (src : Bytes) (cur : Cursor) : Prog Bool := do
 /-- `postInline(fw, source, cursor)`. -/
 def postInline (ext : Ext) (src : Bytes) (cur : Cursor) : Prog Unit := do
   let child := cur.node
-  if child.label.kind == IK.link then
+  if child.label.kind == IK.emphasis || child.label.kind == IK.strong then
+    let b ← orPanic (rangeSliceP src (child.label.stop - emphasisDelimiterLength child) child.label.stop) .sliceBounds
+    wB b
+  else if child.label.kind == IK.codeSpan || child.label.kind == IK.htmlTag || child.label.kind == IK.autolink then
+    let last ← orPanic child.children.getLast? .indexOutOfRange
+    let closing ← orPanic (rangeSliceP src last.label.stop child.label.stop) .sliceBounds
+    let lastText ← orPanic (spanSliceP src (some last)) .sliceBounds
+    if !closing.isEmpty && hasSuffixEOL lastText then
+      let d := closing.getLast?.getD 0
+      wB ((closing.reverse.takeWhile (· == d)).reverse)
+    else wB closing
+  else if child.label.kind == IK.link || child.label.kind == IK.image then
     wS [0x5D]                                                           -- "]"
     let ref := linkReference child
     if !ref.isEmpty then
